@@ -38,13 +38,14 @@ def demo(n):
     d = os.path.join("/tmp", "confirm_demo_dir", n)
     sh(f"rm -rf {d}; mkdir -p {d}; cp -r {src}/. {d}/")
     wt = "/tmp/seed-" + n.split("-")[0].lower()
-    sh(f"grep -rlZ '{wt}' {d} | xargs -0 -r sed -i 's#{wt}#{WT}#g'")
+    wt2 = wt.replace("/tmp/seed-", "/tmp/seed2-")
+    sh(f"grep -rlZ -e '{wt}' -e '{wt2}' {d} | xargs -0 -r sed -i 's#{wt2}#{WT}#g; s#{wt}#{WT}#g'")
     B = f"{WT}/_build"
     sh(f"nice -n 10 ninja -C {B} -j6 libcorecel.so libgeocel.so liborange.so libceleritas.so "
        f"test/celeritas/libtestcel_celeritas.so 2>&1 | tail -3")
     envs = (f"R={WT} B={B} SRC={WT} BUILD={B} CELER_SRC={WT} CELER_BUILD={B} REPO_ROOT={WT} "
             f"BUILD_DIR={B} CELER_SOURCE_ROOT={WT} ROOT={WT} CELER_ROOT={WT} WT={WT} "
-            f"CFG={B}/include")
+            f"CFG={B}/include C05_SRC={WT} C05_BUILD={B}")
     script = open(os.path.join(d, "demo.sh")).read()
     if "$ROOT/seeded" in script:   # header-only demos addressed through the seeding tree
         sh(f"sed -i 's#\\$ROOT/seeded/m[0-9]*#{d}#g' {d}/demo.sh")
